@@ -817,6 +817,45 @@ theorem AtomSim.mk_done {b b' : Buffer} {r : Bool} {mem : Bool × St} (hi : Inv 
 
 theorem AtomSim.mk_ovf {b b' : Buffer} {r : Bool} {mem : Bool × St} (hi : Inv b') : AtomSim b (.overflow, r, b') mem := hi
 
+/-- After a `size( n )` that did not overflow at least `min n avail` bytes are buffered. -/
+theorem size_min {b b' : Buffer} {n sz : Nat} (h : Inv b) (hs : b.size n = (.done, sz, b')) : sz ≥ min n b.view.avail := by
+  unfold Buffer.size at hs
+  simp only [Prod.mk.injEq] at hs
+  obtain ⟨h1, h2, h3⟩ := hs
+  have hr : b.require n = (.done, b') := by rw [← h1, ← h3]
+  obtain ⟨_, _, hmin, _, _⟩ := require_done h hr
+  rw [h.view_avail, ← h2, h3]
+  exact hmin
+
+/-- The counting loop of `rep_one_min_max` over the buffer counts the leading `c`s of the stream bytes at the logical position. -/
+theorem countBuf_eq (b : Buffer) (c : UInt8) (h : Inv b) : ∀ (k i : Nat), i + k ≤ b.occupied →
+    countBuf b c k i = (((b.stream.toList.drop (b.view.cur.pos + i)).take k).takeWhile (· == c)).length := by
+  intro k
+  induction k with
+  | zero => intro i _; simp [countBuf]
+  | succ k ih =>
+    intro i hik
+    have hwb : b.peek i = b.memCtx.inp.getD (b.view.cur.pos + i) 0 := window_bytes h i (by omega)
+    have hle := h.occupied_le
+    have hlt : b.view.cur.pos + i < b.stream.toList.length := by
+      have hbe := h.byte_eq
+      unfold Buffer.remaining Buffer.logicalPos at hle
+      show b.cur.byte + i < b.stream.toList.length
+      simp only [Array.length_toList]
+      omega
+    have hd : b.stream.toList.drop (b.view.cur.pos + i) =
+        b.stream.toList[b.view.cur.pos + i] :: b.stream.toList.drop (b.view.cur.pos + i + 1) :=
+      List.drop_eq_getElem_cons hlt
+    have hget : b.memCtx.inp.getD (b.view.cur.pos + i) 0 = b.stream.toList[b.view.cur.pos + i] := by
+      show b.stream.getD (b.view.cur.pos + i) 0 = _
+      simp only [Array.length_toList] at hlt
+      simp [Array.getD, hlt]
+    simp only [countBuf]
+    rw [hd, List.take_succ_cons, hwb, hget, ih (i + 1) (by omega), Nat.add_assoc]
+    generalize b.stream.toList[b.view.cur.pos + i] = x
+    rw [List.takeWhile_cons]
+    cases hx : (x == c) <;> simp
+
 /-- Every atom's `match( in )` over the buffer, from any invariant state and whatever the reader's
     schedule: `overflow_error`, or exactly the result and position of the same atom over the memory input. -/
 theorem atom_sim (a : Atom) (b : Buffer) (h : Inv b) (ha : a.overBuffer = true) :
@@ -825,7 +864,55 @@ theorem atom_sim (a : Atom) (b : Buffer) (h : Inv b) (ha : a.overBuffer = true) 
   cases a with
   | utf8Range found lo hi => cases ha
   | maxDigits mx => cases ha
-  | repOne lo hi c => cases ha
+  | repOne lo hi c =>
+    simp only [atomStepBuf, atomStep, hE]
+    rcases hsz : b.size (hi + 1) with ⟨o, sz, b1⟩
+    cases o with
+    | overflow => exact AtomSim.mk_ovf (by rw [(size_overflow h hsz).1]; exact h)
+    | done =>
+      obtain ⟨hi1, hm, hv, hocc, _, hle, _, _, _, hbh, _⟩ := size_ctx h hsz
+      have hmin := size_min h hsz
+      have he1 : b1.eol = b.eol := congrArg Ctx.eol hm
+      have hst : b1.stream = b.stream := congrArg Ctx.inp hm
+      have hcnt := countBuf_eq b1 c hi1 sz 0 (by omega)
+      rw [hst, hv, Nat.add_zero] at hcnt
+      have hwin : windowBytes b.memCtx b.view = b.stream.toList.drop b.view.cur.pos := by
+        unfold windowBytes
+        apply List.take_of_length_le
+        show (b.stream.toList.drop b.view.cur.pos).length ≤ b.stream.size - b.view.cur.pos
+        simp
+      have hLl : (b.stream.toList.drop b.view.cur.pos).length = b.view.avail := by
+        show _ = b.stream.size - b.view.cur.pos
+        simp
+      generalize b.stream.toList.drop b.view.cur.pos = L at hcnt hwin hLl
+      have e1 : ∀ k, ((L.take k).takeWhile (· == c)).length = min k (L.takeWhile (· == c)).length := by
+        intro k; rw [← List.take_takeWhile, List.length_take]
+      have hT : (L.takeWhile (· == c)).length ≤ b.view.avail := by
+        rw [← hLl]; exact (List.takeWhile_sublist _).length_le
+      simp only
+      rw [he1, hcnt, hwin, e1, e1, List.length_take, hLl]
+      generalize (L.takeWhile (· == c)).length = T at hT
+      by_cases hlo : sz < lo
+      · rw [if_pos hlo]
+        split
+        · exact AtomSim.mk_done hi1 hm (by rw [hv])
+        · split
+          · omega
+          · exact AtomSim.mk_done hi1 hm (by rw [hv])
+      · rw [if_neg hlo]
+        by_cases hc : lo ≤ min sz T ∧ min sz T ≤ hi
+        · rw [if_pos hc]
+          have hk : min sz T ≤ sz := Nat.min_le_left _ _
+          obtain ⟨i2, v2, m2⟩ := hbh (min sz T) ((Atom.repOne lo hi c).testAny b.eol.ch) hk
+          have heq : min (hi + 1) T = min sz T := by omega
+          rw [if_neg (by omega), heq, if_pos hc]
+          exact AtomSim.mk_done i2 m2 (by rw [v2])
+        · rw [if_neg hc]
+          split
+          · exact AtomSim.mk_done hi1 hm (by rw [hv])
+          · split
+            · omega
+            · exact AtomSim.mk_done hi1 hm (by rw [hv])
   | any =>
     simp only [atomStepBuf, atomStep]
     rcases he : b.empty with ⟨o, e, b1⟩
